@@ -154,8 +154,19 @@ def _run(case):
     return f, req, nontrivial
 
 
+def _run_safe(case):
+    try:
+        return _run(case)
+    except core.Infra:
+        raise
+    except Exception as e:  # the real code raised on an input of the documented domain
+        name = case.get('name', case['kind'])
+        return ([dict(kind='property', key=f"raises:{name}:{case.get('layout', 'C')}",
+                      detail=dict(error=f'{type(e).__name__}: {e}'))], [], True)
+
+
 def evaluate(cases):
-    runs = [_run(c) for c in cases]
+    runs = [_run_safe(c) for c in cases]
     lines = [rq[0] for _, reqs, _ in runs for rq in reqs]
     drvs = iter(core.drive(lines))
     res = []
